@@ -74,3 +74,54 @@ def correspondence(model: Model, cases, cfg, *, cwd="/tmp/probe", max_div=5):
             if len(divs) < max_div:
                 divs.append({"input": text, "impl": {"action": d.action, "reason": d.reason}, "model": r, "kind": "analyzer"})
     return {"stats": dict(stats), "distribution": dict(dist), "divergences": divs, "samples": samples}
+
+
+def correspondence_cfg(model: Model, cases, *, max_div=5, area="analyze (config mode)"):
+    """End-to-end: the model computes the rule lookups itself from the configuration.
+    cases: iterable of (text, cfg_text, cwd)."""
+    from dippy.core.analyzer import analyze
+    from dippy.core.config import parse_config
+
+    from corr_config import cfg_to_json, env_json, record_resolve
+
+    stats = collections.Counter()
+    dist = collections.Counter()
+    divs = []
+    samples = []
+    seen = set()
+    cache = {}
+    for text, cfg_text, cwd in cases:
+        stats["cases"] += 1
+        if cfg_text not in cache:
+            cfg = parse_config(cfg_text)
+            cache[cfg_text] = (cfg, cfg_to_json(cfg))
+        cfg, cj = cache[cfg_text]
+        table = []
+        rec = Recorder()
+        exc = None
+        d = None
+        with record_resolve(table), recording(rec, oracle_match=False):
+            try:
+                d = analyze(text, cfg, Path(cwd))
+            except Exception as e:  # noqa: BLE001
+                exc = e
+        if exc is not None:
+            stats["impl_exception"] += 1
+            if len(divs) < max_div:
+                divs.append({"input": [text, cfg_text, cwd], "impl": "exception " + repr(exc), "model": None, "kind": "impl-exception"})
+            continue
+        if has_surrogate(text):
+            continue
+        r = model.ask({"op": "analyze", "fuel": 64, "cmd": text, "cwd": cwd, "remote": False, "world": rec.world(), "config": cj, "env": env_json(table)})
+        dist["verdict:" + d.action] += 1
+        key = (text, cfg_text)
+        if key not in seen and not d.reason.startswith("parse error"):
+            seen.add(key)
+            stats["distinct_nontrivial"] += 1
+        if len(samples) < 3:
+            samples.append({"input": text, "config": cfg_text, "verdict": d.action, "reason": d.reason})
+        if not agree(d, r):
+            stats["diverged"] += 1
+            if len(divs) < max_div:
+                divs.append({"input": [text, cfg_text, cwd], "impl": {"action": d.action, "reason": d.reason}, "model": r, "kind": area})
+    return {"area": area, "stats": dict(stats), "distribution": dict(dist), "divergences": divs, "samples": samples}
